@@ -5,9 +5,9 @@
    Time is the position in the history, with the events of one run of the socket reader kept in their order: the reader takes
    message k from the socket (read k), later asks for the next one (which shows that k has been handed to every channel it had
    to go to: decided k).  For a stream s created at time c(s) and dropped at d(s) (or alive at the end), message k is
-     forbidden   if k was decided before c(s), or read after d(s), or not sent before the connection failed;
-     optional    if k was sent before c(s) but not decided before c(s)     (it was under way while s subscribed);
-     mandatory   otherwise, i.e. sent after c(s).
+     forbidden   if k was decided before c(s) (or was sent after the connection had failed);
+     optional    if k was read before c(s) but not decided before c(s)     (it was under way while s subscribed);
+     mandatory   otherwise: read after c(s), or sent and never read.
    The statement for s with rule r, Y(s) = the messages s yielded, in order:
      Y(s) = filter (matches r) [k_a, k_a+1, ...]  for some first message k_a that is not forbidden and not later than the first
      mandatory one; cut short where s was dropped; complete (up to the last message sent before a failure) if s is alive at
@@ -137,74 +137,90 @@ Fixpoint is_prefix_nat (a b : list nat) : bool :=
 
 Inductive cls := Forbidden | Optional | Mandatory.
 
-(* classification of message k for a stream created at c and (maybe) gone at d *)
-Definition classify (l : list atom) (c : nat) (d : option nat) (k : nat) : cls :=
-  let sent := index_where (is_sent k) 0 l in
-  let readp := index_where (is_read k) 0 l in
+(* classification of message k for a stream that subscribed at position c *)
+Definition classify (l : list atom) (c : nat) (k : nat) : cls :=
   if lt_opt (decided_at l k) c then Forbidden
-  else match d, readp with
-       | Some dd, Some rp => if Nat.ltb dd rp then Forbidden else if lt_opt sent c then Optional else Mandatory
-       | Some dd, None => Forbidden
-       | None, _ => if lt_opt sent c then Optional else Mandatory
-       end.
+  else if lt_opt (index_where (is_read k) 0 l) c then Optional
+  else Mandatory.
 
 (* candidates for Y(s): for every admissible first message, the matching messages from there on *)
-Fixpoint candidates (mt : nat * mkind -> bool) (cl : nat -> cls) (ms : list (nat * mkind)) (started : bool) : list (list nat) :=
+Fixpoint candidates (mt : nat * mkind -> bool) (cl : nat -> cls) (ms : list (nat * mkind)) : list (list nat) :=
   match ms with
   | [] => [[]]
   | (k, m) :: r =>
-      let rest_from_here := map fst (filter mt ((k, m) :: r)) in
+      let from_here := map fst (filter mt ((k, m) :: r)) in
       match cl k with
-      | Forbidden => if started then [rest_from_here] else candidates mt cl r false
-      | Optional => rest_from_here :: (if started then [] else candidates mt cl r false)
-      | Mandatory => [rest_from_here]
+      | Forbidden => candidates mt cl r
+      | Optional => from_here :: candidates mt cl r
+      | Mandatory => [from_here]
       end
   end.
 
-(* forbidden messages at the end (read after the drop) are cut by the prefix test; forbidden ones at the start by the scan *)
-Definition stream_ok (rules : list rspec) (l : list atom) (s : nat) (rule : option nat) (c : nat) : bytes :=
+Fixpoint count_yields_before (s : nat) (n : nat) (l : list atom) : nat :=
+  match n, l with
+  | O, _ | _, [] => 0
+  | S n', TYield s' _ :: r => (if Nat.eqb s s' then 1 else 0) + count_yields_before s n' r
+  | S n', _ :: r => count_yields_before s n' r
+  end.
+
+(* a stream: id, rule, the position at which it (or the stream it was cloned from) subscribed, how many messages its
+   ancestors had already taken when it was cloned off *)
+Record sinfo := { si_id : nat; si_rule : option nat; si_c : nat; si_skip : nat }.
+
+Definition stream_ok (rules : list rspec) (l : list atom) (si : sinfo) : bytes :=
+  let s := si_id si in
   let d := index_where (is_gone s) 0 l in
   let ms := sent_msgs l in
-  let mt (p : nat * mkind) := match rule with
+  let mt (p : nat * mkind) := match si_rule si with
                               | None => true
                               | Some j => match nth_error rules j with Some r => spec_matches r (snd p) | None => false end
                               end in
   let y := yields_of s l in
-  let cands := candidates mt (classify l c d) ms false in
+  let cands := map (skipn (si_skip si)) (candidates mt (classify l (si_c si)) ms) in
   match d with
-  | None => if existsb (nat_list_eqb y) cands then B "OK" else B "a-live-stream-did-not-yield-exactly-the-matching-messages-since-it-subscribed"
+  | None => if existsb (nat_list_eqb y) cands then B "OK"
+            else B "a-live-stream-did-not-yield-exactly-the-matching-messages-since-it-subscribed"
   | Some _ =>
-      (* dropped: what it yielded is the beginning of what it would have yielded, and nothing read after the drop *)
-      if existsb (is_prefix_nat y) cands then B "OK" else B "a-dropped-stream-yielded-something-else-than-a-prefix-of-its-matching-messages"
+      (* dropped: what it yielded is the beginning of what it would have yielded *)
+      if existsb (is_prefix_nat y) cands then B "OK"
+      else B "a-dropped-stream-yielded-something-else-than-a-prefix-of-its-matching-messages"
   end.
 
-Fixpoint creations (l : list atom) (n : nat) (live_rules : list (nat * option nat)) : list (nat * option nat * nat) :=
+Fixpoint creations (all : list atom) (l : list atom) (n : nat) (known : list sinfo) : list sinfo :=
   match l with
   | [] => []
-  | TCreate s r :: rest => (s, r, n) :: creations rest (S n) ((s, r) :: live_rules)
+  | TCreate s r :: rest =>
+      let si := {| si_id := s; si_rule := r; si_c := n; si_skip := 0 |} in si :: creations all rest (S n) (si :: known)
   | TCloneOf s s2 :: rest =>
-      let r := match find (fun p => Nat.eqb (fst p) s) live_rules with Some p => snd p | None => None end in
-      (s2, r, n) :: creations rest (S n) ((s2, r) :: live_rules)
-  | _ :: rest => creations rest (S n) live_rules
+      match find (fun x => Nat.eqb (si_id x) s) known with
+      | Some x =>
+          let si := {| si_id := s2; si_rule := si_rule x; si_c := si_c x;
+                       si_skip := si_skip x + count_yields_before s n all |} in
+          si :: creations all rest (S n) (si :: known)
+      | None => creations all rest (S n) known
+      end
+  | _ :: rest => creations all rest (S n) known
   end.
 
 (* ---- sharing, judged on the last snapshot ---- *)
-Definition count_live (l : list atom) (cr : list (nat * option nat * nat)) (canon : nat -> nat) (j : nat) : nat :=
-  length (filter (fun p => match snd (fst p) with
-                           | Some j' => Nat.eqb (canon j') j && match index_where (is_gone (fst (fst p))) 0 l with None => true | Some _ => false end
+Definition count_live (l : list atom) (cr : list sinfo) (canon : nat -> nat) (j : nat) : nat :=
+  length (filter (fun x => match si_rule x with
+                           | Some j' => Nat.eqb (canon j') j && match index_where (is_gone (si_id x)) 0 l with None => true | Some _ => false end
                            | None => false
                            end) cr).
 
-Definition table_ok (nrules : nat) (l : list atom) (cr : list (nat * option nat * nat)) (canon : nat -> nat) (failed : bool)
-                    (last : snap) : bytes :=
+Definition table_ok (nrules : nat) (l : list atom) (cr : list sinfo) (canon : nat -> nat) (failed : bool) (last : snap) : bytes :=
+  let has_clone := existsb (fun a => match a with TCloneOf _ _ => true | _ => false end) l in
   match sn_subs last with
   | None => B "subscriptions-still-locked-at-the-end"
   | Some subs =>
       let want j := count_live l cr canon j in
-      let ok_entry (e : nat * nat * cinfo) := Nat.eqb (snd (fst e)) (want (fst (fst e))) && negb (Nat.eqb (snd (fst e)) 0) in
+      let ok_entry (e : nat * nat * cinfo) :=
+        negb (Nat.eqb (want (fst (fst e))) 0) && negb (Nat.eqb (snd (fst e)) 0) &&
+        (has_clone || Nat.eqb (snd (fst e)) (want (fst (fst e)))) in
       let all_present := forallb (fun j => Nat.eqb (want j) 0 || negb (Nat.eqb (canon j) j) ||
                                           existsb (fun e => Nat.eqb (fst (fst e)) j) subs) (seq 0 nrules) in
-      if negb (forallb ok_entry subs) then B "reference-count-is-not-the-number-of-live-streams-of-the-rule"
+      if negb (forallb ok_entry subs) then B "a-subscription-without-live-stream-or-a-reference-count-that-is-not-the-number-of-live-streams"
       else if negb all_present then B "a-rule-with-a-live-stream-has-no-subscription"
       else match sn_senders last with
            | None => B "msg_senders-still-locked-at-the-end"
@@ -225,8 +241,8 @@ Fixpoint first_bad (l : list bytes) : bytes :=
 
 Definition spec_check (rules : list rspec) (canon : nat -> nat) (h : list oline) : bytes :=
   let l := flatten [] (map o_ev h) in
-  let cr := creations l 0 [] in
-  let per_stream := map (fun p => stream_ok rules l (fst (fst p)) (snd (fst p)) (snd p)) cr in
+  let cr := creations l l 0 [] in
+  let per_stream := map (stream_ok rules l) cr in
   let failed := existsb (fun a => match a with TFailRead => true | _ => false end) l in
   let tbl := match rev h with
              | last :: _ => table_ok (length rules) l cr canon failed (o_snap last)
